@@ -615,6 +615,14 @@ impl<'a> Elab<'a> {
                 }
                 _ => None,
             });
+            // `let g = e.into_inner();` (a `dropcall` method) with `e` already an alias: `g` is the same place
+            let alias_target = alias_target.or_else(|| match peel_paren(&init_expr) {
+                Expr::MethodCall(m) if m.args.is_empty() && self.u.dropcall.contains(&m.method.to_string()) => match path_single_ident(&m.receiver) {
+                    Some(r) if self.env.aliases.iter().any(|(a, _)| *a == r) => Some((*m.receiver).clone()),
+                    _ => None,
+                },
+                _ => None,
+            });
             if let Some(t) = alias_target {
                 let t2 = self.fold_expr(t);
                 self.bind_alias(n, t2);
@@ -1188,7 +1196,11 @@ impl<'a> Elab<'a> {
         // std methods without a vstd spec: `X.m(args)` → `f(&mut X, args)` (trusted helper, listed as assumption)
         if let Some((_, to)) = self.u.methodfn.iter().find(|(a, _)| *a == method).cloned() {
             let recv = self.fold_expr((*m.receiver).clone());
-            let args: Vec<Expr> = m.args.iter().cloned().map(|a| self.fold_expr(a)).collect();
+            let mut args: Vec<Expr> = m.args.iter().cloned().map(|a| self.fold_expr(a)).collect();
+            if self.u.ctxfns.contains(&to) {
+                let b = self.spec.blocking;
+                args.push(parse_quote!(#b));
+            }
             let f = ident(&to);
             let call: Expr = parse_quote!(#f(&mut #recv #(, #args)*));
             let rf = last_field(&m.receiver).unwrap_or_default();
@@ -1475,6 +1487,43 @@ impl<'a> Elab<'a> {
         let sp = i.span();
         // `if let PAT = EXPR`
         if let Expr::Let(l) = &*i.cond {
+            // `if let Ok(g) = X.try_lock() { A } [else { B }]` (also `X.lock()`) on a poisonable mutex: the guard exists only in A
+            if self.u.poisonlocks {
+                if let (Expr::MethodCall(l), Pat::TupleStruct(ts)) = (peel_paren(&l.expr), &*l.pat) {
+                    let mfield = last_field(&l.receiver).filter(|f| self.t.mutex_fields.contains(f)).or_else(|| path_single_ident(&l.receiver).filter(|n| self.u.mutexlocals.contains(n)));
+                    if (l.method == "try_lock" || l.method == "lock") && l.args.is_empty() && mfield.is_some() && ts.path.segments.last().unwrap().ident == "Ok" && ts.elems.len() == 1 {
+                        if let Some(gn) = Self::pat_single_ident(&ts.elems[0]) {
+                            let field = mfield.unwrap();
+                            let place = self.fold_expr((*l.receiver).clone());
+                            let acquire: Expr = if l.method == "try_lock" { parse_quote!(#place.try_lock_()) } else { parse_quote!(#place.lock_unpoisoned_()) };
+                            let kl = self.next_key(&format!("{}.{}", field, l.method));
+                            let mut pre: Vec<Stmt> = vec![];
+                            pre.extend(self.pt());
+                            pre.extend(self.ghost_marker("before", &kl));
+                            let n_alias = self.env.aliases.len();
+                            let data: Expr = parse_quote!(#place.data);
+                            self.bind_alias(&gn, data);
+                            let (tb, _env_t, _dt) = self.fold_branch_block(i.then_branch.clone(), vec![Raii { name: gn.clone(), kind: RaiiKind::Lock { place: place.clone(), field: field.clone() }, depth: 0 }]);
+                            self.env.aliases.truncate(n_alias);
+                            let eb: Option<Expr> = match &i.else_branch {
+                                Some((_, e)) => {
+                                    let saved = self.env.clone();
+                                    let e2 = self.fold_expr((**e).clone());
+                                    self.env = saved;
+                                    Some(e2)
+                                }
+                                None => None,
+                            };
+                            let ife: Expr = match eb {
+                                Some(e) => parse_quote!(if #acquire #tb else #e),
+                                None => parse_quote!(if #acquire #tb),
+                            };
+                            pre.push(Stmt::Expr(ife, None));
+                            return expr_block(pre);
+                        }
+                    }
+                }
+            }
             // weak references into a modelled heap (`heapupgrade H`): `if let Some(x) = W.upgrade() { B }` ⇒
             // `if H.alive_(&W) { let mut x = H.take_(&W); B; H.put_(x); }` — B works on the object the weak reference names
             if let (Some(h), Expr::MethodCall(mc), None) = (self.u.heapupgrade.clone(), peel_paren(&l.expr), &i.else_branch) {
